@@ -60,6 +60,9 @@ type schedObs struct {
 	Seed     int64        `json:"seed"`
 	Err      proj.ErrInfo `json:"err"`
 	Sk       []string     `json:"sk"`
+	Shapes   []string     `json:"shapes"`
+	Hd       []proj.HdObs `json:"hd"`
+	ProjErr  string       `json:"projerr"`
 	Comments []string     `json:"comments"`
 	Consumed int          `json:"consumed"` // runes read from the source at return
 	Value    int          `json:"value"`    // eval
@@ -350,7 +353,7 @@ func (c *controller) run(done <-chan struct{}) (hang bool, timeouts int) {
 }
 
 func runSched(c schedCase) (o schedObs) {
-	o = schedObs{ID: c.ID, Kind: c.Kind, Src: c.Src, Policy: c.Policy, Seed: c.Seed, Sk: []string{}, Comments: []string{}, Store: []string{}, Events: []schedEvent{}, Running: []int{}}
+	o = schedObs{ID: c.ID, Kind: c.Kind, Src: c.Src, Policy: c.Policy, Seed: c.Seed, Sk: []string{}, Shapes: []string{}, Hd: []proj.HdObs{}, Comments: []string{}, Store: []string{}, Events: []schedEvent{}, Running: []int{}}
 	ctl := &controller{lastPt: map[string]string{}, lexSide: map[string]bool{}, names: map[uint64]string{}, arrive: make(chan struct{}, 1), rnd: rand.New(rand.NewSource(c.Seed)), policy: c.Policy, sched: c.Schedule, retAt: -1, bits: c.Bits}
 	ctl.free = c.Policy == "free" || c.Policy == "race"
 	ctl.race = c.Policy == "race"
@@ -395,8 +398,17 @@ func runSched(c schedCase) (o schedObs) {
 			readsAtRet = cs.reads
 			o.Consumed = len(cs.rs) - cs.remaining()
 			o.Err = errInfo(err)
-			sk, _ := proj.Commands(cmds)
-			o.Sk = sk.Sk
+			sk, perr := proj.Commands(cmds)
+			if perr != nil {
+				o.ProjErr = perr.Error()
+			}
+			o.Sk, o.Shapes, o.Hd = sk.Sk, sk.Shapes, sk.Hd
+			if o.Sk == nil {
+				o.Sk, o.Shapes = []string{}, []string{}
+			}
+			if o.Hd == nil {
+				o.Hd = []proj.HdObs{}
+			}
 			for _, cm := range comments {
 				o.Comments = append(o.Comments, cm.Text)
 			}
